@@ -129,11 +129,11 @@ theorem siteParams_pin : Gen.CacheMisc.siteParams = [("newCache_c0", ["withStats
   ("cache_IsWeighted_r0", ["c_isWeighted"]),
   ("cache_IsRecordingStats_r0", ["c_withStats"])] := by rfl
 
-theorem shape_pin : Gen.CacheMisc.shape = [("zeroValue", [0, 0, 0, 1, 0, 0]),
-  ("newCache", [11, 0, 21, 1, 1, 4]),
-  ("cache_EstimatedSize", [0, 0, 0, 1, 0, 0]),
-  ("cache_IsWeighted", [0, 0, 0, 1, 0, 0]),
-  ("cache_IsRecordingStats", [0, 0, 0, 1, 0, 0]),
-  ("cache_Stats", [0, 0, 0, 1, 0, 0])] := by rfl
+theorem shape_pin : Gen.CacheMisc.shape = [("zeroValue", [0, 0, 0, 1, 0, 0, 0]),
+  ("newCache", [11, 0, 21, 1, 1, 4, 0]),
+  ("cache_EstimatedSize", [0, 0, 0, 1, 0, 0, 0]),
+  ("cache_IsWeighted", [0, 0, 0, 1, 0, 0, 0]),
+  ("cache_IsRecordingStats", [0, 0, 0, 1, 0, 0, 0]),
+  ("cache_Stats", [0, 0, 0, 1, 0, 0, 0])] := by rfl
 
 end OtterVerif.Pin.CacheMisc
